@@ -205,15 +205,18 @@ def build_wire(plan):
                 queued.append((p[0], o))
             else:
                 raise MachineryError("C35 adapter: one send produced %d writes" % (len(ts.writes) - before))
-        r0 = Client()                             # shadow peer: only there to key the sender
-        widen(r0, plan)
-        t0 = WT()
-        r0.makeConnection(t0)
-        for x in list(ts.writes):                 # one write at a time: the shadow is not under test
-            r0.dataReceived(x)
+        # Key the sender directly: hand it the peer's KEXINIT payload and NEWKEYS as already-parsed messages
+        # (its receive path is not involved, so a defect there cannot break the set-up of the wire).
+        from twisted.conch.ssh.common import NS
+        c, m, z = algs(plan)
+        T = transport.SSHTransportBase
+        peer_kexinit = b"".join([
+            b"\x07" * 16,
+            NS(b",".join(list(T.supportedKeyExchanges) + [T._EXT_INFO_C])), NS(b",".join(T.supportedPublicKeys)),
+            NS(c), NS(c), NS(m), NS(m), NS(z), NS(z), NS(b""), NS(b""), b"\x00", b"\x00\x00\x00\x00"])
         before = len(ts.writes)
-        for x in list(t0.writes):
-            s.dataReceived(x)                     # -> NEWKEYS out, keys adopted, queued packets flushed
+        s.ssh_KEXINIT(peer_kexinit)               # real negotiation, real key derivation -> NEWKEYS out
+        s.ssh_NEWKEYS(b"")                        # keys adopted, queued packets flushed
         if len(ts.writes) != before + 1 + len(queued):
             raise MachineryError("C35 adapter: key adoption produced %d writes, expected %d" % (len(ts.writes) - before, 1 + len(queued)))
         kinds.append("hs")
@@ -441,11 +444,11 @@ def mutate(t, rng):
     """Corrupt one logged field / drop one event (binding self-test)."""
     ev = t["ev"]
     r = rng.random()
+    dls = [i for i, e in enumerate(ev) if e["dl"] and e["e"] == "deliver"]
     if t["cfg"]["tj"]:
         # after a disconnect the rest of the wire is never delivered, so byte counts of chunks in which no
         # item completes are not pinned down by the spec: corrupt deliveries / the disconnect flag only
-        r = r * 0.5 if rng.random() < 0.6 else 0.8
-    dls = [i for i, e in enumerate(ev) if e["dl"] and e["e"] == "deliver"]
+        r = r * 0.5 if dls else 0.8
     if r < 0.3 and dls:
         i = rng.choice(dls)
         ev[i]["dl"][0] += 1                       # another payload delivered
@@ -541,7 +544,7 @@ def run(ctx):
     offered, extra = configs()
     ctx.extra["configurations"] = len(offered)
     ctx.extra["extra_configurations_none"] = len(extra)
-    per = ctx.pick(30, 1500)
+    per = ctx.pick(20, 600)
     traces = []
     seed = ctx.seed * 1000003
     for (c, m, z) in offered + extra:
@@ -553,7 +556,7 @@ def run(ctx):
             traces.append(run_case(plan, cuts, w))
     ctx.log("recorded %d random executions over %d configurations" % (len(traces), len(offered) + len(extra)))
     # every single split point of one wire per chosen configuration (with banner lines)
-    sweep_cfgs = ctx.pick([offered[0], offered[-1]], offered[::3])
+    sweep_cfgs = ctx.pick([offered[0], offered[-1]], offered[::6])
     nsweep = 0
     for (c, m, z) in sweep_cfgs:
         seed += 1
@@ -562,7 +565,7 @@ def run(ctx):
         plan["post"] = plan["post"][:3]
         w = build_wire(plan)
         total = len(w["wire"])
-        step = 1 if total < 2500 else 2
+        step = -(-total // ctx.pick(500, 3000))
         for p in range(1, total, step):
             traces.append(run_case(plan, [p], w))
             nsweep += 1
@@ -577,7 +580,8 @@ def run(ctx):
     ctx.extra["tampered_traces"] = sum(1 for t in traces if t["cfg"]["tj"])
     ctx.extra["flooded_traces"] = sum(1 for t in traces if any(e["e"] == "flood" for e in t["ev"]))
     ctx.extra["banner_traces"] = sum(1 for t in traces if t["plan"]["banners"])
-    ctx.selftest_rejects("SshPacketsTrace", good[:400:2], mutate, n=24)
+    if not ctx.violations:      # (with violations pending the verdict is already exit 1)
+        ctx.selftest_rejects("SshPacketsTrace", good[:400:2], mutate, n=24)
 
 
 def replay(ctx, obj):
